@@ -392,8 +392,16 @@ func (e *Eval) compile(node ast.Node) error {
 		// value, and no clean termination.  Instead we'd walk
 		// off the end of our bytecode array.
 		//
-		if len(e.instructions) == 0 ||
-			code.Opcode(e.instructions[len(e.instructions)-1]) != code.OpReturn {
+		// We must look at the last instruction, not at the last byte:
+		// the last byte might be (part of) an operand which happens
+		// to have the same value as the return-opcode.
+		endsWithReturn := false
+		for ip := 0; ip < len(e.instructions); {
+			op := code.Opcode(e.instructions[ip])
+			endsWithReturn = (op == code.OpReturn)
+			ip += code.Length(op)
+		}
+		if !endsWithReturn {
 			e.emit(code.OpVoid)
 			e.emit(code.OpReturn)
 		}
